@@ -17,6 +17,13 @@ MULTILINE_TOKENS = [
     "f ( 'a\\\n\\\nb' , \n c ) ; g ( )",
     "// c\n// d\nx = 1 ; // e\ny = 2 ;",
     "var s = 'l1\\\u2028l2' ; t ;",
+    # line terminators that are not LF/CR inside tokens; characters Python
+    # takes for line boundaries inside tokens
+    "/* a\u2028b\u2029 */ x = 1 ; /* c */ y ;",
+    "x = 'p\\\u2029q' ; y = 2 ; z",
+    "/* page\x0cbreak \x0b \x85 \x1c */ a = 1 ; b ;",
+    "x = 'a\x0cb\x0bc' ; // d\x0ce\n y = 1 ; z ;",
+    "a ;\x0c b ;\x0b c ;\x85 ; d",
 ]
 
 
